@@ -72,7 +72,7 @@ class Result:
             return
         path = None
         if replay_script is not None:
-            d = os.path.join(VERIF, "replays", self.args.pid)
+            d = os.path.join(os.environ.get("VERIF_REPLAY_DIR") or os.path.join(VERIF, "replays"), self.args.pid)
             os.makedirs(d, exist_ok=True)
             safe = "".join(ch if ch.isalnum() or ch in "._-" else "_" for ch in vid)[:120]
             path = os.path.join(d, "bounded_%s.py" % safe)
